@@ -115,6 +115,8 @@ func runC09(run *Run, replay string) {
 		if sc.Kind == "tf" {
 			elemRangeOracle(run, sc, ts, loc)
 		}
+		targetableOracle(run, sc, ts, loc)
+		mergeCases(run, sc, 6)
 		blockAddrCases(run, sc, 8)
 		// ---- ground truth
 		if cfg != nil {
@@ -202,6 +204,15 @@ func runC10(run *Run, replay string) {
 		got := map[string]int{}
 		seen := map[string]bool{}
 		prev := -1
+		// the whole list (local, path and direct origins alike) is ordered by file and position
+		for k := 1; k < len(os); k++ {
+			a, b := os[k-1].OriginRange(), os[k].OriginRange()
+			if a.Filename > b.Filename || (a.Filename == b.Filename && a.Start.Byte > b.Start.Byte) {
+				run.Violate(Violation{Key: "C10/origins-not-ordered", Rule: "the list is ordered by file and position", Func: "CollectReferenceOrigins",
+					Detail: fmt.Sprintf("#%d %T at %s:%d comes after #%d %T at %s:%d", k, os[k], b.Filename, b.Start.Byte, k-1, os[k-1], a.Filename, a.Start.Byte), Replay: locWith(loc, q)})
+				break
+			}
+		}
 		for _, o := range os {
 			lo, ok := o.(reference.LocalOrigin)
 			if !ok {
@@ -359,11 +370,83 @@ func runC08(run *Run, replay string) {
 				}
 			}
 		}
+		selfOutsideOracle(run, sc, cfg, tbl, loc)
 		if len(run.Res.Samples) < 2 {
 			run.Sample(map[string]interface{}{"src": cfg.Src, "origins": len(sc.Main.Ctx.ReferenceOrigins), "targets": len(flat)})
 		}
 	}
 	_ = schema.Reference{}
+}
+
+// selfOutsideOracle: wherever "self." is being typed inside a body that does not enable self
+// references (in the ground-truth language: every body except the resource body itself), no
+// self.* candidate may be offered
+func selfOutsideOracle(run *Run, sc *Scenario, cfg *TfConfig, tbl map[int]hcl.Pos, loc map[string]interface{}) {
+	f := sc.Main.Ctx.Files[sc.File]
+	body, ok := f.Body.(*hclsyntax.Body)
+	if !ok {
+		return
+	}
+	src := string(sc.Src)
+	ctx := context.Background()
+	for from := 0; ; {
+		i := strings.Index(src[from:], "self.")
+		if i < 0 {
+			break
+		}
+		s := from + i
+		from = s + 5
+		if s > 0 && (src[s-1] == '.' || src[s-1] == '_' || (src[s-1] >= 'a' && src[s-1] <= 'z')) {
+			continue
+		}
+		e := s + 5
+		for e < len(src) && (src[e] == '_' || src[e] == '.' || (src[e] >= 'a' && src[e] <= 'z') || (src[e] >= '0' && src[e] <= '9')) {
+			e++
+		}
+		// the innermost block around the reference
+		inner := ""
+		var find func(b *hclsyntax.Body)
+		find = func(b *hclsyntax.Body) {
+			for _, k := range b.Blocks {
+				if k.Range().Start.Byte <= s && s < k.Range().End.Byte {
+					inner = k.Type
+					find(k.Body)
+				}
+			}
+		}
+		find(body)
+		if inner == "res" || inner == "" {
+			continue
+		}
+		for _, cut := range []int{s + 5, s + 4} {
+			pos, ok := tbl[cut]
+			if !ok {
+				continue
+			}
+			nsrc := src[:cut] + src[e:]
+			w2 := newWorld()
+			pd2 := w2.AddPath("root", tfSchema(), map[string]string{"main.tf": nsrc}, sc.Main.Ctx.Functions)
+			w2.Collect()
+			d2, _ := w2.Dec.Path(pd2.Path)
+			res := safeCall("CompletionAtPos", func() (interface{}, error) { return d2.CompletionAtPos(ctx, "main.tf", pos) })
+			run.Res.Evaluations++
+			run.Count("self_typed_where_not_enabled")
+			if res.Panic != "" || res.Err != nil {
+				continue
+			}
+			q := Query{Name: "CompletionAtPos", Pos: &pos, File: "main.tf"}
+			for _, c := range res.Val.(lang.Candidates).List {
+				if c.Kind == lang.ReferenceCandidateKind && (c.Label == "self" || strings.HasPrefix(c.Label, "self.")) {
+					m := locWith(loc, q)
+					m["buffer"] = nsrc
+					m["candidate"] = c.Label
+					run.Violate(Violation{Key: "C08/self-candidate-where-self-references-are-not-enabled", Rule: "self.* is offered only where the body enables self references",
+						Func: "Reference.CompletionAtPos", Detail: fmt.Sprintf("%s offered inside a %q block", c.Label, inner), Replay: m})
+					break
+				}
+			}
+		}
+	}
 }
 
 // exprAtIsParserPlaceholder: is the attribute value around the position a placeholder the parser
